@@ -295,7 +295,7 @@ pub fn run(ctx: &mut Ctx) {
             let step = prop_oneof![
                 2 => (any::<u16>(), prop_oneof![2 => Just(None), 1 => gen::name().prop_map(Some)]).prop_map(|(pick, rename)| Step::Copy { pick, rename }),
                 2 => gen::basic_op(20000, true).prop_map(Step::Normal),
-                1 => gen::extra_op(5000).prop_map(Step::Normal),
+                1 => gen::extra_op(5000, false).prop_map(Step::Normal),
                 1 => Just(Step::Flush),
             ];
             (
